@@ -3,9 +3,11 @@
 (* (run limit >= window, motif longer than the window): the real constructor must accept exactly the former (C02).   *)
 EXTENDS Filter, TLC, Json
 VARIABLES k, run, ms
-MotifSets == {{}, {<<2, 1>>}, {<<0, 2, 2, 1>>}, {<<0, 3>>, <<1, 2, 1>>}}
-Init == k \in 1..6 /\ run \in 0..7 /\ ms \in MotifSets
+\* motif lists in the order the caller writes them: the over-long motif first, last, lexicographically smallest or greatest
+MotifLists == {<<>>, <<<<2, 1>>>>, <<<<0, 2, 2, 1>>>>, <<<<0, 3>>, <<1, 2, 1>>>>, <<<<3, 3>>, <<0, 1, 2, 3>>>>, <<<<0, 1, 2, 3>>, <<3, 3>>>>,
+               <<<<2, 0, 0, 3, 3, 1>>, <<3, 3, 0, 0>>>>, <<<<1, 2>>, <<1, 2, 1, 2, 1>>, <<3>>>>, <<<<3>>, <<0, 0, 0>>, <<2, 2>>>>}
+Init == k \in 1..6 /\ run \in 0..7 /\ ms \in MotifLists
 Next == FALSE /\ UNCHANGED <<k, run, ms>>
-Cfg == [k |-> k, run |-> run, gc |-> <<>>, motifs |-> ms]
-Emit == PrintT(ToJson([k |-> k, run |-> run, motifs |-> SetToSeq(ms), decidable |-> WindowDecidable(Cfg), codeaccepts |-> CtorAccepts(Cfg)]))
+Cfg == [k |-> k, run |-> run, gc |-> <<>>, motifs |-> {ms[i] : i \in 1..Len(ms)}]
+Emit == PrintT(ToJson([k |-> k, run |-> run, motifs |-> ms, decidable |-> WindowDecidable(Cfg), codeaccepts |-> CtorAccepts(Cfg)]))
 =============================================================================
